@@ -35,7 +35,8 @@ CONSTANTS
     WorkerMayFail,  \* TRUE: worker_tick may return Err
     AdoptGuard,     \* TRUE: a directory without marker that holds the meta keyspace is refused
     WeakMessager,   \* TRUE: keyspaces hold a weak sender (queued messages die with the DatabaseInner and its workers)
-    CloseSend       \* "blocking" | "try": how Drop for DatabaseInner sends Close messages
+    CloseSend,      \* "blocking" | "try": how Drop for DatabaseInner sends Close messages
+    DrainInLoop     \* TRUE: the close loop of Drop for DatabaseInner drains the queue on every turn
 
 Inst == 1..MaxAttempts
 Wk == 1..NWorkers
@@ -62,7 +63,7 @@ NoInst == [up |-> FALSE,         \* the instance was constructed
            kstask |-> 0,         \* clones held by queued flush tasks
            q |-> <<>>,           \* worker queue: "Flush" | "Compact" | "Rotate" | "Close"  (Compact / Rotate carry a Keyspace clone)
            rx |-> FALSE,         \* the DatabaseInner's receiver (and sender) exist
-           wk |-> [w \in Wk |-> "none"],   \* "idle" | "busy" | "exit" (got Close) | "dec" | "rel" | "gone" | "failed"
+           wk |-> [w \in Wk |-> "none"],   \* "idle" | "busy" | "sending" (blocked in a send into the full queue) | "exit" (got Close) | "dec" | "rel" | "gone" | "failed"
            ctr |-> 0,
            dpc |-> 0,            \* Drop for DatabaseInner: 0 not started, 1 stop+drained / loop head, 11 inside send(Close), 2 loop left, 3 drained again, 4 cleared, 5 supervisor released, 6 receiver released, 7 lock released (done)
            supDb |-> FALSE, supKs |-> FALSE,
@@ -76,17 +77,17 @@ NoInst == [up |-> FALSE,         \* the instance was constructed
 Carries(m) == m \in {"Compact", "Rotate"}
 QClones(i) == Cardinality({n \in 1..Len(I[i].q) : Carries(I[i].q[n])})
 KsRefs(i) == I[i].ksu + (IF I[i].ksmap THEN 1 ELSE 0) + I[i].kstask + QClones(i)
-             + Cardinality({w \in Wk : I[i].wk[w] = "busy"})   \* a busy worker works on a task / message holding a clone
-WorkerHoldsSup(i, w) == I[i].wk[w] \in {"idle", "busy", "exit", "dec"}
+             + Cardinality({w \in Wk : I[i].wk[w] \in {"busy", "sending"}})   \* a busy worker works on a task / message holding a clone
+WorkerHoldsSup(i, w) == I[i].wk[w] \in {"idle", "busy", "sending", "exit", "dec"}
 SupRefs(i) == (IF I[i].supDb THEN 1 ELSE 0) + (IF I[i].supKs THEN 1 ELSE 0)
               + Cardinality({w \in Wk : WorkerHoldsSup(i, w)})
 LockRefs(i) == (IF I[i].lockDb THEN 1 ELSE 0) + (IF I[i].lockKs THEN 1 ELSE 0)
 HasUserHandle(i) == I[i].db > 0 \/ I[i].ksu > 0
-WorkersRunning(i) == {w \in Wk : I[i].wk[w] \in {"idle", "busy", "exit", "dec", "rel"}}
+WorkersRunning(i) == {w \in Wk : I[i].wk[w] \in {"idle", "busy", "sending", "exit", "dec", "rel"}}
 RxAlive(i) == I[i].rx \/ \E w \in Wk : WorkerHoldsSup(i, w)   \* every worker state holds a receiver (and sender) clone
 \* with weak senders in the keyspaces, the channel (and every message still queued) is dropped
 \* together with its last strong handle
-ChanAfter(r) == IF WeakMessager /\ ~(r.rx \/ \E w \in Wk : r.wk[w] \in {"idle", "busy", "exit", "dec"})
+ChanAfter(r) == IF WeakMessager /\ ~(r.rx \/ \E w \in Wk : r.wk[w] \in {"idle", "busy", "sending", "exit", "dec"})
                 THEN [r EXCEPT !.q = <<>>] ELSE r
 NoAttemptInFlight == \A a \in Inst : att[a].st \in {"none", "done"}
 
@@ -237,20 +238,39 @@ KsSend(i, m) ==
 \* ---------------------------------------------------------------------------------------
 \* workers
 
+\* flume: a sender blocked on the full queue is admitted (its message enters the queue, it wakes
+\* up) by the next operation of a receiver that finds room - recv does, drain does ONLY if there
+\* is room BEFORE it empties the queue
+Admit(r) ==
+    IF Len(r.q) < QCap /\ \E w \in Wk : r.wk[w] = "sending"
+    THEN LET w == CHOOSE w \in Wk : r.wk[w] = "sending" IN
+         [r EXCEPT !.q = Append(@, "Flush"), !.wk[w] = "idle"]
+    ELSE r
+\* Receiver::drain
+Drained(r) == [Admit(r) EXCEPT !.q = <<>>]
+
 WRecv(i, w) ==
     /\ I[i].wk[w] = "idle" /\ I[i].q # <<>>
-    /\ LET m == Head(I[i].q) IN
-       I' = [I EXCEPT ![i].q = Tail(@),
-                      ![i].wk[w] = IF m = "Close" THEN "exit" ELSE "busy",
-                      \* a Flush message takes a flush task (if any) with it
-                      ![i].kstask = IF m = "Flush" /\ @ > 0 THEN @ - 1 ELSE @]
+    /\ LET m == Head(I[i].q)
+           r1 == [I[i] EXCEPT !.q = Tail(@),
+                              !.wk[w] = IF m = "Close" THEN "exit" ELSE "busy",
+                              \* a Flush message takes a flush task (if any) with it
+                              !.kstask = IF m = "Flush" /\ @ > 0 THEN @ - 1 ELSE @]
+       IN I' = [I EXCEPT ![i] = Admit(r1)]
     /\ UNCHANGED <<marker, files, flock, att, nsend, unsyncedOpen>>
 
 \* the message is done (the clone it carried is dropped); a finished flush requests compactions
+\* with try_send; a finished rotation announces its flush task with a BLOCKING send(Flush)
 WDone(i, w, requeue) ==
     /\ I[i].wk[w] = "busy"
     /\ I' = [I EXCEPT ![i].wk[w] = "idle",
                       ![i].q = IF requeue /\ Len(@) < QCap THEN Append(@, "Compact") ELSE @]
+    /\ UNCHANGED <<marker, files, flock, att, nsend, unsyncedOpen>>
+WDoneRotation(i, w) ==
+    /\ I[i].wk[w] = "busy"
+    /\ IF Len(I[i].q) < QCap
+       THEN I' = [I EXCEPT ![i].wk[w] = "idle", ![i].q = Append(@, "Flush"), ![i].kstask = @ + 1]
+       ELSE I' = [I EXCEPT ![i].wk[w] = "sending", ![i].kstask = @ + 1]
     /\ UNCHANGED <<marker, files, flock, att, nsend, unsyncedOpen>>
 
 \* worker_tick returned Err: the database is poisoned, the thread ends (its state is dropped)
@@ -280,7 +300,7 @@ WRel(i, w) ==
 
 DStop(i) ==    \* stop signal, drain the queue
     /\ I[i].alive /\ I[i].db = 0 /\ I[i].dpc = 0
-    /\ I' = [I EXCEPT ![i].dpc = 1, ![i].q = <<>>]
+    /\ I' = [I EXCEPT ![i] = [Drained(I[i]) EXCEPT !.dpc = 1]]
     /\ UNCHANGED <<marker, files, flock, att, nsend, unsyncedOpen>>
 
 \* while counter > 0 { send(Close); sleep }: the check of the counter ...
@@ -293,12 +313,13 @@ DLoopCheck(i) ==
 DSendClose(i) ==
     /\ I[i].dpc = 11
     /\ CloseSend = "blocking" => Len(I[i].q) < QCap
-    /\ I' = [I EXCEPT ![i].dpc = 1, ![i].q = IF Len(@) < QCap THEN Append(@, "Close") ELSE @]
+    /\ LET r0 == IF DrainInLoop THEN Drained(I[i]) ELSE I[i] IN
+       I' = [I EXCEPT ![i] = [r0 EXCEPT !.dpc = 1, !.q = IF Len(@) < QCap THEN Append(@, "Close") ELSE @]]
     /\ UNCHANGED <<marker, files, flock, att, nsend, unsyncedOpen>>
 
 DDrain2(i) ==
     /\ I[i].dpc = 2
-    /\ I' = [I EXCEPT ![i].dpc = 3, ![i].q = <<>>]
+    /\ I' = [I EXCEPT ![i] = [Drained(I[i]) EXCEPT !.dpc = 3]]
     /\ UNCHANGED <<marker, files, flock, att, nsend, unsyncedOpen>>
 
 DClear(i) ==   \* break the cycles: flush tasks, keyspace map, journal manager
@@ -346,7 +367,7 @@ KRelLock(i) ==
 \* ---------------------------------------------------------------------------------------
 
 Internal(i) ==
-    \/ \E w \in Wk : WRecv(i, w) \/ WDone(i, w, TRUE) \/ WDone(i, w, FALSE) \/ WFail(i, w) \/ WDec(i, w) \/ WRel(i, w)
+    \/ \E w \in Wk : WRecv(i, w) \/ WDone(i, w, TRUE) \/ WDone(i, w, FALSE) \/ WDoneRotation(i, w) \/ WFail(i, w) \/ WDec(i, w) \/ WRel(i, w)
     \/ DStop(i) \/ DLoopCheck(i) \/ DSendClose(i) \/ DDrain2(i) \/ DClear(i) \/ DRelSup(i) \/ DRelRx(i) \/ DRelLock(i)
     \/ KDrop(i) \/ KRelSup(i) \/ KRelLock(i)
 
